@@ -402,3 +402,104 @@ Fixpoint pump (fixed v_empty : bool) (fmt : pixfmt) (s : screen) (cls : list cli
       end
     end
   end.
+
+(* ------------------------------------------------------------------ cursor replaced during an update *)
+(* rfbUpdateClient for the client at position k when the application's displayHook - called at the
+   head of rfbSendFramebufferUpdate - replaces the cursor (rfbSetCursor) for client number hk.
+   hook = Some (hk, new cursor).  Result: screen, clients, what was sent, "the hook has run". *)
+Definition update_one (fixed v_empty : bool) (fmt : pixfmt) (hook : option (nat * option cursor))
+           (s : screen) (cls : list client) (k : nat)
+  : option (screen * list client * upd_out * bool) :=
+  match nth_error cls k with
+  | None => Some (s, cls, no_out, false)
+  | Some cl =>
+    if alive cl && fb_update_pending s cl && negb (rgn_is_empty (fw (sfb s)) (fh (sfb s)) (req cl))
+    then
+      let '(s1, cls1, fired) :=
+        match hook with
+        | Some (hk, nc) => if Nat.eqb hk k then (let '(a, b) := set_cursor s cls nc in (a, b, true))
+                           else (s, cls, false)
+        | None => (s, cls, false)
+        end in
+      match nth_error cls1 k with
+      | None => None
+      | Some cl1 =>
+        match send_update fixed v_empty fmt s1 cl1 with
+        | None => None
+        | Some (s2, cl2, o) =>
+          match set_nth cls1 k cl2 with
+          | None => None
+          | Some cls2 => Some (s2, cls2, o, fired)
+          end
+        end
+      end
+    else Some (s, cls, no_out, false)
+  end.
+
+(* one round of the event loop, clients in the order of the library's client list (newest first =
+   highest position first); the hook runs at most once *)
+Fixpoint pump_h (fixed v_empty : bool) (fmt : pixfmt) (k : nat) (hook : option (nat * option cursor))
+         (s : screen) (cls : list client) (outs : list (nat * upd_out))
+  : option (screen * list client * list (nat * upd_out) * bool) :=
+  match k with
+  | O => Some (s, cls, outs, match hook with None => true | Some _ => false end)
+  | S k' =>
+    match update_one fixed v_empty fmt hook s cls k' with
+    | None => None
+    | Some (s1, cls1, o, fired) =>
+      pump_h fixed v_empty fmt k' (if fired then None else hook) s1 cls1 ((k', o) :: outs)
+    end
+  end.
+
+(* the event loop runs until a round sends nothing (a cursor replaced during one client's update makes
+   clients visited earlier in the round pending again); fuel = maximal number of rounds *)
+Fixpoint pump_rounds (fuel : nat) (fixed v_empty : bool) (fmt : pixfmt) (hook : option (nat * option cursor))
+         (s : screen) (cls : list client) (outs : list (nat * upd_out))
+  : option (screen * list client * list (nat * upd_out) * bool) :=
+  match fuel with
+  | O => Some (s, cls, outs, match hook with None => true | Some _ => false end)
+  | S f =>
+    match pump_h fixed v_empty fmt (length cls) hook s cls [] with
+    | None => None
+    | Some (s1, cls1, o1, consumed) =>
+      if existsb (fun ko => o_sent (snd ko)) o1 || (match hook with Some _ => consumed | None => false end)
+      then pump_rounds f fixed v_empty fmt (if consumed then None else hook) s1 cls1 (outs ++ o1)
+      else Some (s1, cls1, outs ++ o1, consumed)
+    end
+  end.
+
+(* ------------------------------------------------------------------ a cursor object used by several screens *)
+(* the library's built-in cursor (main.c: myCursor), which every new screen starts with *)
+Definition default_cursor : cursor :=
+  mkcur 8 7 3 3 (Some [0; 66; 36; 24; 36; 66; 0]) [231; 231; 126; 60; 126; 231; 231] None None false
+        (0, 0, 0) (65535, 65535, 65535).
+
+Fixpoint le_value (bytes : list Z) : Z :=
+  match bytes with [] => 0 | b :: t => b + 256 * le_value t end.
+
+(* the pixels one gets by reading, with pixels of bnew bytes, the memory of an array of pixels of bold
+   bytes: as many as lie completely inside that memory (reading further is an out-of-range access:
+   the list ends there) *)
+Fixpoint chunk_pixels (fuel : nat) (bnew : nat) (bytes : list Z) : list Z :=
+  match fuel with
+  | O => []
+  | S f => if (length bytes <? bnew)%nat || (bnew =? 0)%nat then []
+           else le_value (firstn bnew bytes) :: chunk_pixels f bnew (skipn bnew bytes)
+  end.
+Definition regroup (bold bnew : Z) (r : list Z) : list Z :=
+  let bytes := flat_map (le_bytes (Z.to_nat bold)) r in
+  chunk_pixels (length bytes) (Z.to_nat bnew) bytes.
+
+(* The cursor as a screen of format fmt finds it when its rich form was derived by the library
+   (rfbMakeRichCursorFromXCursor) on a screen whose pixels have [tag] bytes (None: not derived).
+   v_cache = false: the tree - the cached bytes are read with the new pixel size;
+   v_cache = true: proposed repair notes/fix_C15_4.diff - every screen has its own copy of the built-in
+   cursor, a derived rich form is never inherited from another screen. *)
+Definition use_shared (v_cache : bool) (tag : option Z) (fmt : pixfmt) (c : cursor) : cursor :=
+  match tag, crich c with
+  | Some bold, Some r =>
+      if v_cache
+      then mkcur (cw c) (ch c) (cxhot c) (cyhot c) (csource c) (cmask c) None (calpha c) (cpremult c) (cfore c) (cback c)
+      else if bold =? bpp fmt then c else set_rich c (regroup bold (bpp fmt) r)
+  | _, _ => c
+  end.
